@@ -267,10 +267,14 @@ func judge(c Case, plan string, r *run, base *run) *pt.Failure {
 			}
 		}
 	}
-	if registered != 0 && !changed && baseChanged && !reportedFailed {
+	// (a caller that ignores failed statements and commits what is left — possibly nothing — has completed its
+	// phase one: the branch is reported done, not failed)
+	if registered != 0 && !changed && baseChanged && !reportedFailed && (!c.Branch.KeepGoing || failed) {
 		return pt.Failf(sig("failed-branch-not-reported"), "branch %d was registered, nothing was committed, but no BranchReport(PhaseOne_Failed) was sent\n%s", registered, info())
 	}
-	if reportedDone && !changed && baseChanged {
+	if reportedDone && !changed && baseChanged && len(committedTx) == 0 {
+		// (a local transaction that committed without having written anything — every statement of a caller who
+		// carries on failed or matched nothing — is a completed phase one all the same)
 		return pt.Failf(sig("reported-done-without-commit"), "PhaseOne_Done reported although nothing was committed\n%s", info())
 	}
 	return nil
